@@ -272,7 +272,9 @@ func (c *connection) SendPID(from gen.PID, to gen.PID, options gen.MessageOption
 	}
 
 	order := protoOrder(from.ID)
-	orderPeer := protoOrder(to.ID)
+	// the queue on the peer is chosen by the sender, as in the frames addressed by
+	// name (the order of two messages must not depend on how the process is addressed)
+	orderPeer := protoOrder(from.ID)
 	if options.KeepNetworkOrder == false {
 		order = uint8(0)
 		orderPeer = uint8(0)
@@ -394,7 +396,9 @@ func (c *connection) SendAlias(from gen.PID, to gen.Alias, options gen.MessageOp
 	}
 
 	order := protoOrder(from.ID)
-	orderPeer := protoOrder(to.ID[1])
+	// the queue on the peer is chosen by the sender, as in the frames addressed by
+	// name (the order of two messages must not depend on how the process is addressed)
+	orderPeer := protoOrder(from.ID)
 	if options.KeepNetworkOrder == false {
 		order = uint8(0)
 		orderPeer = uint8(0)
@@ -774,7 +778,9 @@ func (c *connection) CallPID(from gen.PID, to gen.PID, options gen.MessageOption
 	}
 
 	order := protoOrder(from.ID)
-	orderPeer := protoOrder(to.ID)
+	// the queue on the peer is chosen by the sender, as in the frames addressed by
+	// name (the order of two messages must not depend on how the process is addressed)
+	orderPeer := protoOrder(from.ID)
 	if options.KeepNetworkOrder == false {
 		order = uint8(0)
 		orderPeer = uint8(0)
@@ -897,7 +903,9 @@ func (c *connection) CallAlias(from gen.PID, to gen.Alias, options gen.MessageOp
 	}
 
 	order := protoOrder(from.ID)
-	orderPeer := protoOrder(to.ID[1])
+	// the queue on the peer is chosen by the sender, as in the frames addressed by
+	// name (the order of two messages must not depend on how the process is addressed)
+	orderPeer := protoOrder(from.ID)
 	if options.KeepNetworkOrder == false {
 		order = uint8(0)
 		orderPeer = uint8(0)
